@@ -39,6 +39,8 @@ import (
 	"verif/shim/vtime"
 )
 
+const burstN = 205
+
 type dnlKey struct {
 	name  string
 	nonce uint32
@@ -46,6 +48,7 @@ type dnlKey struct {
 
 type dnlOp struct {
 	ins  int           // key index, -1 = none
+	many []int         // key indices inserted one after the other in ONE step (a burst)
 	dt   time.Duration // clock step (0 = none)
 	reap bool          // reaper pass (after the clock step)
 }
@@ -85,7 +88,7 @@ func buildDnl(cfgName string) explore.System {
 		s.ops = append(s.ops, explore.Op{Name: n})
 	}
 	frac := func(tenths int) time.Duration { return life / 10 * time.Duration(tenths) }
-	var ticks, advs []int
+	var ticks, advs, burst []int
 	switch f[1] {
 	case "full":
 		// two names x two nonces; every clock step with and without a reaper pass behind it
@@ -95,11 +98,33 @@ func buildDnl(cfgName string) explore.System {
 		// the alphabet of the history search without de-duplication: same name, two nonces
 		s.keys = []dnlKey{{"/a", 0x3001}, {"/a", 0x3002}}
 		ticks, advs = []int{4, 7}, []int{7}
+	case "typed":
+		// names that differ in the TYPE of one component only (generic x, keyword 32=x, and 264=x
+		// whose type equals the generic one modulo 256), all with the same nonce, plus a second
+		// nonce: a record of one name says nothing about the others
+		s.keys = []dnlKey{{"/a/x", 0x3001}, {"/a/264=x", 0x3001}, {"/a/32=x", 0x3001}, {"/a/x", 0x3002}}
+		ticks, advs = []int{4, 7}, []int{7}
+	case "burst":
+		// MORE records than one reaper pass removes (the pass stops after 100) fall due at once:
+		// one step records burstN = 205 distinct nonces of one name (> 2 passes' worth); every one
+		// of them, and one unrelated key, is looked up after every step
+		s.keys = []dnlKey{{"/a", 0x3001}}
+		for i := 0; i < burstN; i++ {
+			burst = append(burst, len(s.keys))
+			s.keys = append(s.keys, dnlKey{"/a/b", uint32(0x5000 + i)})
+		}
+		ticks, advs = []int{4, 7}, []int{7}
 	default:
 		report.Fatal("unknown dead-nonce-list variant in %q", cfgName)
 	}
 	for i, k := range s.keys {
+		if f[1] == "burst" && i > 2 && i != burstN/2 {
+			continue // single reports: the unrelated key, the first two and one middle key of the burst
+		}
 		add(fmt.Sprintf("Ins(%s,%x)", k.name, k.nonce), dnlOp{ins: i})
+	}
+	if len(burst) > 0 {
+		add(fmt.Sprintf("Burst(/a/b,%d nonces)", burstN), dnlOp{ins: -1, many: burst})
 	}
 	for _, t := range ticks {
 		add(fmt.Sprintf("Tick(%s)", frac(t)), dnlOp{ins: -1, dt: frac(t), reap: true})
@@ -131,11 +156,15 @@ func (s *dnlSys) step(in *dnlInst, op explore.Op) (v []report.Violation) {
 	if !ok {
 		report.Fatal("unknown op %q", op.Name)
 	}
+	ins := o.many
 	if o.ins >= 0 {
+		ins = []int{o.ins}
+	}
+	for _, ki := range ins {
 		now := vtime.Now()
-		r := &in.ref[o.ins]
-		listed := s.find(in, o.ins)
-		in.d.Insert(fwsim.Name(s.keys[o.ins].name), s.keys[o.ins].nonce)
+		r := &in.ref[ki]
+		listed := s.find(in, ki)
+		in.d.Insert(fwsim.Name(s.keys[ki].name), s.keys[ki].nonce)
 		switch {
 		case !listed:
 			stats["dnl report: not listed -> new record (must until t+L)"]++
